@@ -38,6 +38,7 @@ mod alpha_index;
 mod join;
 mod working_memory;
 mod rete_agenda;
+mod rete_frame;
 mod modules;
 mod agenda_mgr;
 mod engine_agenda_actions;
@@ -95,6 +96,7 @@ fn main() {
     all.extend(join::witnesses());
     all.extend(working_memory::witnesses());
     all.extend(rete_agenda::witnesses());
+    all.extend(rete_frame::witnesses());
     all.extend(modules::witnesses());
     all.extend(agenda_mgr::witnesses());
     all.extend(engine_agenda_actions::witnesses());
